@@ -69,6 +69,7 @@ type zzSubgraphs struct {
 type zzReq struct {
 	url, query string
 	reprs      []string
+	vars       map[string]string // the request's variables, raw
 }
 
 var zzErrTransport = errors.New("connection refused")
@@ -85,6 +86,9 @@ const (
 )
 
 func (s *zzSubgraphs) Load(ctx context.Context, headers http.Header, input []byte) ([]byte, error) {
+	// the real data source's preprocessing of the rendered input (removal of variables the client left undefined,
+	// compaction); only the HTTP round trip below it is replaced
+	input = (&Source{}).compactAndUnNullVariables(input)
 	var req struct {
 		URL  string `json:"url"`
 		Body struct {
@@ -104,6 +108,10 @@ func (s *zzSubgraphs) Load(ctx context.Context, headers http.Header, input []byt
 		for _, r := range reprs {
 			rq.reprs = append(rq.reprs, string(r))
 		}
+	}
+	rq.vars = map[string]string{}
+	for k, v := range req.Body.Variables {
+		rq.vars[k] = string(v)
 	}
 	s.reqs = append(s.reqs, rq)
 	isEntity := strings.Contains(req.Body.Query, "_entities")
